@@ -75,6 +75,7 @@ def jHOp (j : Json) : Except String Op := do
   | "leafDevices" => pure (.leafDevices t)
   | "solve" => pure (.solve t a)
   | "step" => pure (.stepTo t a)
+  | "uproject" => pure (.uproject t a)
   | "partial" => do
       let fd := match fld? j "fd" with | some b => jBool b | none => false
       let fh := match fld? j "fh" with | some b => jBool b | none => false
@@ -127,6 +128,8 @@ def encState (σ : State) : List Int :=
   [-2] ++ σ.dicts.flatMap (fun d => encE d.fn ++ encOE d.jac) ++ [-20] ++ σ.dcache.map encOCV ++ [-21] ++ σ.hcache.map encOCV
     ++ [-22, ((σ.lru.filter (fun e => isSust e.1)).length : Int), ((σ.lru.filter (fun e => !isSust e.1)).length : Int),
         (σ.mats.length : Int), -23] ++ σ.caller.map (fun (v : Nat) => (v : Int))
+    -- no other mutable state exists in the model: library-level mutable globals / device instance fields unchanged
+    ++ [-24, 0, 0]
 
 def historyOp (op : String) (j : Json) : Except String Json := do
   match op with
